@@ -12,7 +12,7 @@ import argparse, concurrent.futures as cf, json, os, re, subprocess, sys, time
 HERE = os.path.dirname(os.path.abspath(__file__))
 VERIF = os.path.dirname(HERE)
 sys.path.insert(0, HERE)
-import build_repo, gen, props  # noqa: E402
+import build_repo, gen, props, cli_slice  # noqa: E402
 
 LEAN = os.path.join(VERIF, "lean")
 WORK = os.path.join(VERIF, ".work")
@@ -243,6 +243,14 @@ def valgrind_pass(cases, timeout_s):
     return out
 
 
+def run_cli(build, driver, cases):
+    outs = cli_slice.run(build["vata"], cases, jobs=NWORKERS)
+    lines = [f"{i} {c}" for i, c in enumerate(cases)]
+    res = {str(i): o for i, o in enumerate(outs)}
+    ver = run_driver(driver, lines, res)
+    return [dict(case=c, result=res[str(i)], verdict=ver.get(str(i), "error no verdict"), via="cli") for i, c in enumerate(cases)]
+
+
 # ------------------------------------------------------------------------------------------ shrinking
 def finding_class(verdict):
     """stable identifier of a finding: first finding's leading words without numbers"""
@@ -334,8 +342,10 @@ def main():
     cfg = props.PROPS[prop]
     os.makedirs(os.path.join(EVID, "replays"), exist_ok=True)
 
+    timing = {}
     try:
         build = build_repo.ensure_build()
+        timing["build_repo_s"] = round(time.time() - t0, 1)
     except RuntimeError as e:
         # the tree does not build: nothing can be shown to hold
         rp = os.path.join(EVID, "replays", f"{prop}-build.json")
@@ -343,7 +353,9 @@ def main():
         print(f"VIOLATION property={prop} replay={rp} no-failing-input-found")
         write_evidence(prop, tier, seed, cfg, dict(obligations=0, discharged=0, names=[], broken=[]), [], [], time.time() - t0, 1, {})
         return 1
+    t1 = time.time()
     lean_ok, lean_log, driver, aud = ensure_lean(build, prop)
+    timing["lean_build_audit_s"] = round(time.time() - t1, 1)
     import atexit
     atexit.register(lambda: os.path.exists(driver) and os.remove(driver))
     if not os.path.exists(driver):
@@ -353,7 +365,7 @@ def main():
     if args.replay:
         rp = json.load(open(args.replay))
         cases = rp.get("cases") or [rp["case"]]
-        rs = run_cases(build, driver, cases, cfg.get("timeout", 10))
+        rs = run_cli(build, driver, cases) if rp.get("via") == "cli" else run_cases(build, driver, cases, cfg.get("timeout", 10))
         bad = 0
         for r in rs:
             print(r["case"], "=>", r["result"][:300], "=>", r["verdict"])
@@ -371,7 +383,17 @@ def main():
         if e:
             enum_desc, enum_cases = e
     cases = corpus + enum_cases + gen_cases
+    t1 = time.time()
     results = run_cases(build, driver, cases, cfg.get("timeout", 10))
+    timing["cases_s"] = round(time.time() - t1, 1)
+
+    # a slice of the cases goes through the real `vata` binary (glue: option parsing, dictionaries, sanitising, simulation set-up)
+    if cfg.get("cli") and not args.n:
+        ncli = cfg["cli"][tier]
+        cli_cases = gen.generate(cfg["cli"]["kinds"], ncli, seed * 7919 + 13)
+        t1 = time.time()
+        results += run_cli(build, driver, cli_cases)
+        timing["cli_s"] = round(time.time() - t1, 1)
 
     # C20 thorough: a valgrind-memcheck pass (uninitialised values, invalid reads the sanitizers' redzones miss) of an
     # unsanitised build over the corpus and a sample of every kind
@@ -424,20 +446,25 @@ def main():
         # behind by an earlier failing case)
         first = violations[0]
         for cand in violations[:12]:
+            if cand.get("via") == "cli":
+                continue
             r1 = run_cases(build, driver, [cand["case"]], cfg.get("timeout", 10), isolate=True)[0]
             if not r1["verdict"].startswith("ok") and not r1["verdict"].startswith("error"):
                 first = r1
                 break
         cls = finding_class(first["verdict"])
-        small = shrink(build, driver, first["case"], cls)
-        rs = run_cases(build, driver, [small], cfg.get("timeout", 10), isolate=True)[0]
-        if rs["verdict"].startswith("ok"):
-            small, rs = first["case"], first
+        if first.get("via") == "cli":
+            small, rs = first["case"], first          # found through the command-line binary: replayed through it, not shrunk
+        else:
+            small = shrink(build, driver, first["case"], cls)
+            rs = run_cases(build, driver, [small], cfg.get("timeout", 10), isolate=True)[0]
+            if rs["verdict"].startswith("ok"):
+                small, rs = first["case"], first
         k = 0
         while os.path.exists(os.path.join(EVID, "replays", f"{prop}-{k}.json")):
             k += 1
         rp = os.path.join(EVID, "replays", f"{prop}-{k}.json")
-        json.dump(dict(property=prop, seed=seed, tier=tier, case=small, original_case=first["case"],
+        json.dump(dict(property=prop, seed=seed, tier=tier, case=small, original_case=first["case"], via=first.get("via", "api"),
                        implementation_output=rs["result"], verdict=rs["verdict"], finding=cls,
                        n_failing_cases=len(violations), other_failing_cases=[v["case"] for v in violations[1:6]],
                        how_to_replay=f"python3 tools/check.py {prop} --replay {rp}"), open(rp, "w"), indent=1)
@@ -464,7 +491,7 @@ def main():
         print(f"note: {len(errors)} case(s) could not be judged (internal): {errors[0]['verdict'][:120]} :: {errors[0]['case'][:200]}")
 
     write_evidence(prop, tier, seed, cfg, aud, results, [r for _, r in knowns], time.time() - t0,
-                   len(violations) if exit_code else 0, dict(build_hash=build["hash"], corpus=len(corpus), errors=len(errors),
+                   len(violations) if exit_code else 0, dict(build_hash=build["hash"], corpus=len(corpus), errors=len(errors), timing=timing,
                                       enumerated_scope=(dict(description=enum_desc, cases=len(enum_cases), complete=True) if enum_desc else None),
                                       extra_searched=extra_searched, replays=replays))
     return exit_code
@@ -482,7 +509,7 @@ def write_evidence(prop, tier, seed, cfg, aud, results, knowns, wall, nviol, ext
             tags[t] = tags.get(t, 0) + 1
     kinds = {}
     for r in results:
-        k = r["case"].split(" ", 1)[0]
+        k = r["case"].split(" ", 1)[0] + ("(cli)" if r.get("via") == "cli" else "")
         kinds[k] = kinds.get(k, 0) + 1
     samples = [dict(case=r["case"], implementation=r["result"][:400], verdict=r["verdict"]) for r in results[:3]]
     mid = len(results) // 2
